@@ -277,6 +277,13 @@ def check_theorems(prop, expected):
     det = {"theorems": present, "missing": [t for t in expected if t not in present],
            "print_assumptions": n_print, "closed": closed, "axioms": axioms}
     ok = (not det["missing"]) and closed == n_print and n_print >= len(expected) and not axioms
+    if ok and os.environ.get("VERIF_TIER_RUNNING") == "thorough":
+        # independent re-check of the compiled property file and everything it depends on
+        rc = subprocess.run(["timeout", "2400", "coqchk", "-o"] + COQ_ARGS + ["RMP." + prop], cwd=COQ,
+                            stdout=subprocess.PIPE, stderr=subprocess.STDOUT, text=True)
+        m = re.search(r"\* Axioms:\s*(.*?)\n\s*\n", rc.stdout, flags=re.S)
+        det["coqchk"] = {"rc": rc.returncode, "axioms": (m.group(1).strip() if m else "?")}
+        ok = rc.returncode == 0 and det["coqchk"]["axioms"] == "<none>"
     return ok, det
 
 
@@ -410,6 +417,7 @@ TRUSTED_BASE = [
 def main(mod, prop, tier, seed, replay=None):
     ctx = Ctx(prop, tier, seed)
     t0 = time.time()
+    os.environ["VERIF_TIER_RUNNING"] = tier
     violations = []       # (kind, payload)
     notes = []
     ok_build, build_out = ensure_built()
